@@ -1010,6 +1010,10 @@ def _expand_when_stmt_element(
         # Else group
         new_elements.append(Label(name=else_label_name))
         new_elements.append(WaitForHeads(number=len(group_label_names)))
+        # All cases failed: merge the case heads and close the scope on this path, too
+        # (like the case paths do), otherwise the scope stays open in the else branch
+        new_elements.append(MergeHeads(fork_uid=cases_fork_uid))
+        new_elements.append(EndScope(name=scope_label_name))
         if element.else_elements is None:
             new_elements.append(Abort())
         else:
